@@ -1,6 +1,7 @@
 import LhasaV.Model.Extract
 import LhasaV.Lemmas.HeaderName
 import LhasaV.Lemmas.GlobFs
+import LhasaV.Lemmas.Contain
 /-!
 # C10 — extraction never touches anything outside the extraction directory
 -/
@@ -85,5 +86,28 @@ theorem deferred_link_refused (rd : Reader.St) (fs : Fs.St) (filename : Bytes) (
     (hg : passesThroughSymlink fs filename = true) :
     (readerExtract rd fs filename).1 = false ∧ (readerExtract rd fs filename).2.2 = fs :=
   GlobFs.deferred_refused rd fs filename c ht hc hg
+
+/-- following links whose targets are relative and free of ".." never leaves the directory they
+live in: in a state where every link below the extraction directory is safe, every relative
+".."-free path resolves below the extraction directory (last component followed or not) -/
+theorem safe_links_resolve_inside (fs : Fs.St) (p : Bytes) (q : Fs.Path) (followLast : Bool)
+    (hs : Contain.SafeLinks fs) (hrel : p.head? ≠ some 0x2f) (hnd : GlobFs.NoDotDot p)
+    (hr : Fs.resolvePath fs followLast p = some q) : fs.cwd <+: q :=
+  Contain.safe_resolve_below_cwd fs hs followLast p q hrel hnd hr
+
+/-- **C10, the whole run.** Extraction (`lha x`/`e` with any of f, q, i; no `w=`) started in a
+directory that is a directory, whose parent is a directory, and below which every symbolic link is
+safe (e.g. there are none): for ANY archive bytes and ANY answers at the overwrite prompt the
+current directory stays what it was and EVERY mutation the run performs — parent directories,
+files, directories, safe links, placeholders, metadata of re-presented directories, removal of what
+was in the way, the deferred dangerous links — acts on a path below the extraction directory.
+(Proved for the model of the REPAIRED tool; the attempt to prove it for the pinned tree produced
+the two defects recorded in known_findings.json. Members named "..", NUL-cut paths, chains of
+links, links replaced by other links are all covered: nothing is assumed about the archive.) -/
+theorem run_contained (archive : Array UInt8) (o : Opts) (fs₀ : Fs.St) (answers : Bytes)
+    (hw : o.extractPath = none) (hs : Contain.SafeLinks fs₀) (hd : Contain.DirsOk fs₀) :
+    (run archive o fs₀ answers).fs.cwd = fs₀.cwd ∧
+    ∃ new, (run archive o fs₀ answers).fs.log = new ++ fs₀.log ∧ ∀ m ∈ new, fs₀.cwd <+: m.path :=
+  Contain.run_contained_all archive o fs₀ answers hw hs hd
 
 end LhasaV.Props.C10
